@@ -200,6 +200,10 @@ def oracle(case):
 		imf, r850, asc, year = forms(b)
 		nops = 1 + 2 * (3 if 1970 <= year <= 2068 else 2)
 		exp += (' %d%d%d%d%d%d' % (a < b, a > b, a == b, a != b, a <= b, a >= b)) * nops
+		import datetime as _dt
+		da = _dt.datetime(1970, 1, 1) + _dt.timedelta(seconds=a)
+		exp += ' %s %d 1 %s %d' % (da.isoformat(), a, '-'.join(str(v) for v in (da.year, da.month, da.day, da.hour, da.minute, da.second)), a)
+		exp += ' %d%d%d %d%d%d' % (a < b, a > b, a == b, a < b, a > b, a == b)
 		if base[0] != exp:
 			return {'what': 'date comparison disagrees with comparison of the instants', 'a': a, 'b': b, 'got': base[0], 'expected': exp, 'finding': None}
 	return None
